@@ -43,6 +43,7 @@ pub mod libc {
     pub const F_SETFL: i32 = 4; pub const O_NONBLOCK: i32 = 0o4000; pub const AT_EMPTY_PATH: i32 = 0x1000; pub const AT_SYMLINK_NOFOLLOW: i32 = 0x100;
     pub const UTIME_NOW: i64 = 0x3fff_ffff; pub const UTIME_OMIT: i64 = 0x3fff_fffe;
     #[allow(non_camel_case_types)] pub type off64_t = i64;
+    #[allow(non_camel_case_types)] pub struct timespec { pub tv_sec: i64, pub tv_nsec: i64 }
     #[allow(non_camel_case_types)] pub type mode_t = u32;
     #[allow(non_camel_case_types)] pub type c_int = i32;
 }
